@@ -100,6 +100,29 @@ def run(ctx):
     ctx.coverage["with_cancel"] = sum(1 for c in cases if c["cancelAfterEvents"] >= 0)
     ctx.coverage["oracle_failures"] = oracle_fail
     ctx.coverage["disagreements"] = len(disagreements)
+    # ---- step-level correspondence of onComplete (deterministic; release only when all dependencies succeeded) ----
+    scases = []
+    for _ in range(120 if quick else 1500):
+        c = W.make_case(rng, maxn=40, workers=0)
+        scases.append(c)
+    for a, b in ((1, 1), (2, 3), (9, 9)):
+        n, e, fam = W.g_bipartite(a, b)
+        scases.append(dict(W.make_case(rng, family=(n, e, fam), workers=0, fail_fast=False), fail=[], unsel=[]))
+    sbad, sinfo = W.run_steps(ctx, scases)
+    if not sinfo["built"]:
+        ctx.harness_broken("go test of the onComplete step harness failed to build/run against the current tree", sinfo["raw"])
+    ctx.coverage["oncomplete_step_cases"] = sinfo["n"]
+    ctx.coverage["oncomplete_steps_compared"] = sinfo["steps"]
+    ctx.coverage["oncomplete_step_disagreements"] = len(sbad)
+    for c, real, m, k in sbad[:1]:
+        orc = [x for x in W.step_oracle(c, real) if x[0] == "C03"]
+        if orc:
+            for prop, sig, msg in orc:
+                ctx.violation(msg, {"kind": "oracle", "oracle": "onComplete step records", "case": c, "steps": real}, signature=sig)
+        elif not ctx.violations:
+            ctx.violation("onComplete of the real walker and the model's `complete` event disagree: " + W.describe_step_diff(c, real, m, k),
+                          {"kind": "correspondence", "correspondence": "TestVerifOnCompleteSteps vs walker.steps", "case": c, "steps": real,
+                           "model": m}, found_input=False)
     for c, o in list(zip(cases, outs))[:2]:
         ctx.sample({"n": c["n"], "family": c["family"], "failFast": c["failFast"], "workers": c["workers"], "trace_head": o.get("trace", [])[:8]})
     if disagreements and not ctx.violations:
